@@ -34,8 +34,9 @@ var locationTable = []struct{ fn, loc string }{
 	{"getSortedMultipliersCache", "unit_cache"}, // unit.sorted
 	{"updateReCache", "unit_cache"},             // unit.re, unit.names
 	{"(*UnitsDefinition).", "unit_cache"},
-	{"setupStepData", "step_table"}, // steps.table
-	{"ApplyNamespace", "link"},      // link.<ref>
+	{"inlineShorthand", "shorthand_marks"}, // walk marks of the shorthand guard (scratch L1..L3)
+	{"setupStepData", "step_table"},        // steps.table
+	{"ApplyNamespace", "link"},             // link.<ref>
 	// lowest priority: convertData alone (the crashing goroutine of a fatal concurrent map access: it ranges
 	// over its raw data, which is shared only when it is the aliased default map)
 	{"convertData", "shared_default_map"},
